@@ -493,6 +493,87 @@ theorem catOrder_error_is_assertion (provided : Option GL) (rows : Pipeline.Rows
           injection he with he; subst he
           exact sortBy_error_is_assertion _ _ _ hs
 
+/-! ## The ordinal pipeline never fails with anything but an AssertionError -/
+
+theorem rel2_all {α β : Type} {R : α → β → Prop} : ∀ {as : List α} {bs : List β}, Merge.Rel2 R as bs → ∀ a ∈ as, ∃ b, R a b
+  | [], [], _, a, ha => by cases ha
+  | x :: xs, y :: ys, h, a, ha => by
+    rcases List.mem_cons.1 ha with rfl | ha'
+    · exact ⟨y, h.1⟩
+    · exact rel2_all h.2 a ha'
+  | [], _ :: _, h, _, _ => by cases h
+  | _ :: _, [], h, _, _ => by cases h
+
+/-- every group left by `find_common_modalities` has at least one label -/
+theorem findCommonModalities_nonempty {α : Type} (labels : List α) (stats : List BaseDisc.Stat) (lenDf : Nat) (minFreq : Rat)
+    (hlen : labels.length = stats.length) : ∀ g ∈ BaseDisc.findCommonModalities labels stats lenDf minFreq, g ≠ [] := by
+  unfold BaseDisc.findCommonModalities
+  have hinit : Merge.Rel2 (fun (g : List α) (_ : BaseDisc.Stat) => g ≠ []) (labels.map (fun l => [l])) stats := by
+    clear lenDf minFreq
+    induction labels generalizing stats with
+    | nil => cases stats with
+      | nil => trivial
+      | cons _ _ => simp at hlen
+    | cons a t ih =>
+      cases stats with
+      | nil => simp at hlen
+      | cons s ss => exact ⟨by simp, ih ss (by simpa using hlen)⟩
+  have := (Merge.mergeLoop_inv (fun (g : List α) (_ : BaseDisc.Stat) => g ≠ [])
+    (fun g s gd sd hg _ => by intro h; exact hg (List.append_eq_nil_iff.1 h).2) labels.length
+    (labels.map (fun l => [l])) stats lenDf minFreq (Merge.runsOf_singletons labels) hinit).2
+  intro g hg
+  obtain ⟨_, hb⟩ := rel2_all this g hg
+  exact hb
+
+theorem convertToValuesQual_error : ∀ (groups : List (List Val)) (g : GL), g.WF' → (∀ grp ∈ groups, grp ≠ []) →
+    ∀ e, Pipeline.convertToValuesQual g groups = .error e → ∃ m, e = Err.assertion m
+  | [], g, _, _, e, he => by simp [Pipeline.convertToValuesQual, List.foldlM, pure, Except.pure] at he
+  | grp :: rest, g, h, hne, e, he => by
+    unfold Pipeline.convertToValuesQual at he
+    rw [List.foldlM_cons] at he
+    simp only [bind, Except.bind] at he
+    cases hl : grp.getLast? with
+    | none =>
+      have : grp = [] := List.getLast?_eq_none_iff.1 hl
+      exact absurd this (hne grp List.mem_cons_self)
+    | some kept =>
+      rw [hl] at he
+      simp only at he
+      cases hg : g.groupList grp kept with
+      | mk g1 err =>
+        rw [hg] at he
+        cases err with
+        | some e' =>
+          simp only [throw, throwThe, MonadExceptOf.throw] at he
+          injection he with he; subst he
+          exact groupList_error_is_assertion grp g h kept e' (by rw [hg])
+        | none =>
+          simp only [pure, Except.pure] at he
+          have hg1 : g1.WF' := by have := GL.groupList_WF' h grp kept; rw [hg] at this; exact this
+          exact convertToValuesQual_error rest g1 hg1 (fun x hx => hne x (List.mem_cons_of_mem _ hx)) e he
+
+/-- **`OrdinalDiscretizer` (one feature) either completes or raises an AssertionError**, for every
+    well-formed ranking, every sample and every `min_freq`. -/
+theorem ordinalOrder_error_is_assertion (g : GL) (rows : Pipeline.Rows) (minFreq : Rat) (strNan : String)
+    (hg : g.WF) (e : Err) (he : Pipeline.ordinalOrder g rows minFreq strNan = .error e) : ∃ m, e = Err.assertion m := by
+  unfold Pipeline.ordinalOrder at he
+  dsimp only at he
+  refine convertToValuesQual_error _ _ ?_ ?_ e he
+  · split
+    · rename_i hc
+      apply GL.append_WF' ((GL.wf_iff _).1 hg)
+      simp only [Bool.and_eq_true, Bool.not_eq_true'] at hc
+      intro hm
+      have : g.contains (Arg.val (Val.str strNan)) = true := by
+        unfold GL.contains
+        rw [List.any_eq_true]
+        exact ⟨_, hm, by simp [GL.isEqual]⟩
+      rw [this] at hc
+      exact absurd hc.2 (by simp)
+    · exact (GL.wf_iff _).1 hg
+  · apply findCommonModalities_nonempty
+    simp
+
 -- the pipeline theorems are not vacuous: two over-represented values give the boundaries 0, 1, +inf; the empty last
 -- bucket is rare, so the feature goes through the merging loop and `convert_to_values`: +inf absorbs the bucket of 1
 example : (Pipeline.quantOrderQ [(0, 5, 3), (1, 5, 1)] 0 2 (1/2) "__NAN__").toOption.map (fun g => (g.lst, g.content)) =
